@@ -31,6 +31,9 @@
                  sender_interceptor.go): Header: header.Clone(), Payload: append([]byte(nil), payload...) -> Val
    DumpReceiver  same hand-off from receiver_interceptor.go; header parsed from
                  the read buffer (extension payloads alias it), payload = bytes[hs:i] -> Val after the clone
+   DumpReceiverRtcp  receiver_interceptor.go BindRTCPReader: the RTCP packets handed to the
+                 logger goroutine are parsed from a private copy of the read buffer
+                 (rtcp.Unmarshal keeps slices of its input)                      -> Val
    StatsOut/In   pkg/stats/stats_recorder.go QueueOutgoingRTP / QueueIncomingRTP:
                  hdr := header.Clone(), len(payload); processed before returning -> Val
    JBInterceptor pkg/jitterbuffer/receiver_interceptor.go: buf := make([]byte, len(b));
@@ -42,13 +45,13 @@
 From IV Require Import Base.Word.
 
 Inductive comp :=
-| NackCopy | NackRtx | NackNoCopy | FlexFec | LeakyBucket | Pacing | DumpSender | DumpReceiver
+| NackCopy | NackRtx | NackNoCopy | FlexFec | LeakyBucket | Pacing | DumpSender | DumpReceiver | DumpReceiverRtcp
 | StatsOut | StatsIn | JBInterceptor | JBPush | TwccSender | Rtpfb.
 
 Definition comp_eqb (a b : comp) : bool :=
   match a, b with
   | NackCopy, NackCopy | NackRtx, NackRtx | NackNoCopy, NackNoCopy | FlexFec, FlexFec | LeakyBucket, LeakyBucket
-  | Pacing, Pacing | DumpSender, DumpSender | DumpReceiver, DumpReceiver | StatsOut, StatsOut
+  | Pacing, Pacing | DumpSender, DumpSender | DumpReceiver, DumpReceiver | DumpReceiverRtcp, DumpReceiverRtcp | StatsOut, StatsOut
   | StatsIn, StatsIn | JBInterceptor, JBInterceptor | JBPush, JBPush | TwccSender, TwccSender
   | Rtpfb, Rtpfb => true
   | _, _ => false
